@@ -1094,3 +1094,267 @@ Proof.
   - destruct (ws_pump fu c s1 a1) as [s2 e2] eqn:Hp2. inversion H; subst s' evs.
     destruct (Hrec s2 e2 eq_refl) as (Hr & Hq'). split; assumption.
 Qed.
+
+(* ---- arrivals ---- *)
+
+Lemma ws_nozero_prefix c m a b :
+  ~ In WZero (snd (ws_run c m (a ++ b))) ->
+  ~ In WZero (snd (ws_run c m a)) /\ ~ In WZero (snd (ws_run c (fst (ws_run c m a)) b)).
+Proof.
+  rewrite ws_run_app. destruct (ws_run c m a) as [m1 e1]. cbn [fst snd].
+  destruct (ws_run c m1 b) as [m2 e2]. cbn [fst snd]. intros H. split; intros Hin; apply H; apply in_or_app; [left|right]; assumption.
+Qed.
+
+(* C05_ws_arrivals: what the repaired reader delivers is what the automaton delivers for the
+   concatenation of the arrivals *)
+Theorem ws_arrivals_spec c :
+  wsc_fix c = ws_fixed -> ws_drain_buf <= wsc_rxbuf c ->
+  forall arr s s' evs,
+  ws_qinv c s -> Forall wfb arr ->
+  ~ In WZero (snd (ws_run c (ws_mode_of s) (concat arr))) ->
+  ws_arrivals c s arr = (s', evs) ->
+  ws_run c (ws_mode_of s) (concat arr) = (ws_mode_of s', evs) /\ ws_qinv c s'.
+Proof.
+  intros Hfix Hdb. induction arr as [|a tl IH]; intros s s' evs Hq Wf Hz H.
+  - cbn [ws_arrivals concat] in *. inversion H; subst. split; [reflexivity|assumption].
+  - inversion Wf as [|? ? Wa Wtl]; subst. cbn [ws_arrivals concat] in *.
+    destruct (ws_pump (16 + 2 * length a) c s a) as [s1 e1] eqn:Hp.
+    destruct (ws_arrivals c s1 tl) as [s2 e2] eqn:Ha. inversion H; subst s' evs. clear H.
+    destruct (ws_nozero_prefix c _ _ _ Hz) as (Hz1 & Hz2).
+    assert (Hfu : (length a < 16 + 2 * length a)%nat) by lia.
+    destruct (ws_pump_spec c Hfix Hdb _ s a s1 e1 Hq Wa Hfu Hz1 Hp) as (Hr1 & Hq1).
+    rewrite Hr1 in Hz2. cbn [fst] in Hz2.
+    destruct (IH s1 s2 e2 Hq1 Wtl Hz2 Ha) as (Hr2 & Hq2).
+    rewrite ws_run_app, Hr1, Hr2. split; [reflexivity|assumption].
+Qed.
+
+(* C05_ws_chunking *)
+Corollary ws_arrivals_independent c s arr1 arr2 :
+  wsc_fix c = ws_fixed -> ws_drain_buf <= wsc_rxbuf c ->
+  ws_qinv c s -> Forall wfb arr1 -> Forall wfb arr2 -> concat arr1 = concat arr2 ->
+  ~ In WZero (snd (ws_run c (ws_mode_of s) (concat arr1))) ->
+  snd (ws_arrivals c s arr1) = snd (ws_arrivals c s arr2) /\
+  ws_mode_of (fst (ws_arrivals c s arr1)) = ws_mode_of (fst (ws_arrivals c s arr2)).
+Proof.
+  intros Hfix Hdb Hq W1 W2 Hc Hz.
+  destruct (ws_arrivals c s arr1) as [s1 e1] eqn:H1. destruct (ws_arrivals c s arr2) as [s2 e2] eqn:H2.
+  destruct (ws_arrivals_spec c Hfix Hdb arr1 s s1 e1 Hq W1 Hz H1) as (R1 & _).
+  rewrite Hc in Hz. destruct (ws_arrivals_spec c Hfix Hdb arr2 s s2 e2 Hq W2 Hz H2) as (R2 & _).
+  rewrite Hc, R2 in R1. inversion R1 as [[Hm He]]. cbn [fst snd]. split; congruence.
+Qed.
+
+(* the automaton reports neither an out-of-bounds write, nor a stuck reader, nor exhausted fuel *)
+Definition ws_ev_clean (e : ws_ev) : Prop :=
+  match e with WOob | WStuck | WFuel => False | _ => True end.
+
+Lemma ws_step_clean c m b : Forall ws_ev_clean (snd (ws_step c m b)).
+Proof.
+  destruct m as [f line|h|mask size acc|]; cbn [ws_step].
+  - destruct ((b =? 10) && negb (ws_has_nul line)).
+    + destruct (ws_process_line c f (ws_strip_cr line)); repeat constructor.
+    + destruct (ws_http_buf - 1 <=? len (line ++ [b])); repeat constructor.
+  - destruct (len (h ++ [b]) <? 2); [constructor|].
+    destruct (wsc_server c && negb (fh_masked (ws_fh (nth 1 (h ++ [b]) 0)))); [repeat constructor|].
+    destruct (len (h ++ [b]) <? fh_hl (ws_fh (nth 1 (h ++ [b]) 0))); [constructor|].
+    unfold ws_hdr_done. repeat case_if; repeat constructor.
+  - destruct (len (acc ++ [b]) =? size); repeat constructor.
+  - constructor.
+Qed.
+
+Lemma ws_run_clean c : forall x m, Forall ws_ev_clean (snd (ws_run c m x)).
+Proof.
+  induction x as [|b x IH]; intros m; cbn [ws_run]; [constructor|].
+  pose proof (ws_step_clean c m b) as Hs. destruct (ws_step c m b) as [m1 e1]. specialize (IH m1).
+  destruct (ws_run c m1 x) as [m2 e2]. cbn [snd] in *. apply Forall_app. split; assumption.
+Qed.
+
+(* C05_ws_no_oob *)
+Corollary ws_arrivals_clean c s arr :
+  wsc_fix c = ws_fixed -> ws_drain_buf <= wsc_rxbuf c ->
+  ws_qinv c s -> Forall wfb arr ->
+  ~ In WZero (snd (ws_run c (ws_mode_of s) (concat arr))) ->
+  Forall ws_ev_clean (snd (ws_arrivals c s arr)).
+Proof.
+  intros Hfix Hdb Hq W Hz. destruct (ws_arrivals c s arr) as [s1 e1] eqn:H1.
+  destruct (ws_arrivals_spec c Hfix Hdb arr s s1 e1 Hq W Hz H1) as (R1 & _).
+  pose proof (ws_run_clean c (concat arr) (ws_mode_of s)) as Hc. rewrite R1 in Hc. exact Hc.
+Qed.
+
+Lemma ws_init_qinv c : ws_qinv c ws_init.
+Proof.
+  right; left. cbn [ws_init w_closed w_up w_http]. repeat split; try constructor.
+Qed.
+
+(* C05_ws_longline: a handshake line that fills the buffer closes the session *)
+Theorem ws_longline_closes c arr x more s' evs :
+  wsc_fix c = ws_fixed -> ws_drain_buf <= wsc_rxbuf c -> Forall wfb arr ->
+  concat arr = x ++ more -> ws_find_nl x = None -> len x = ws_http_buf - 1 ->
+  ws_arrivals c ws_init arr = (s', evs) ->
+  evs = [WFail] /\ w_closed s' = true.
+Proof.
+  intros Hfix Hdb W Hc Hn Hl H.
+  assert (Hrun : ws_run c (ws_mode_of ws_init) (concat arr) = (MClosed, [WFail])).
+  { rewrite Hc. unfold ws_mode_of, ws_init. cbn [w_closed w_up w_flags w_http negb].
+    apply ws_run_hs_full; assumption. }
+  assert (Hz : ~ In WZero (snd (ws_run c (ws_mode_of ws_init) (concat arr)))).
+  { rewrite Hrun. cbn [snd In]. intros [E|[]]. discriminate. }
+  destruct (ws_arrivals_spec c Hfix Hdb arr ws_init s' evs (ws_init_qinv c) W Hz H) as (R & _).
+  rewrite Hrun in R. inversion R; subst. split; [reflexivity|].
+  apply ws_mode_of_closed. congruence.
+Qed.
+
+(* ------------------------------------------------------------------ frames of messages *)
+
+Inductive ws_lform := L7 | L16 | L64.
+Definition ws_lenbytes (lf : ws_lform) (n : Z) : bytes :=
+  match lf with
+  | L7 => [128 + n]
+  | L16 => [254; n / 256; n mod 256]
+  | L64 => [255; 0; 0; 0; 0; (n / 16777216) mod 256; (n / 65536) mod 256; (n / 256) mod 256; n mod 256]
+  end.
+Definition ws_lform_ok (lf : ws_lform) (n : Z) : Prop :=
+  match lf with L7 => n <= 125 | L16 => n < 65536 | L64 => n < 4294967296 end.
+
+(* a masked binary frame as a client sends it (FIN set, opcode 2) *)
+Definition ws_mk_frame (lf : ws_lform) (mask p : bytes) : bytes :=
+  130 :: ws_lenbytes lf (len p) ++ mask ++ ws_xor mask 0 p.
+
+Lemma ws_xor_len mask : forall p i, len (ws_xor mask i p) = len p.
+Proof. induction p as [|b p IH]; intros i; cbn [ws_xor]; [reflexivity|]. rewrite !len_cons, IH. reflexivity. Qed.
+
+Lemma ws_xor_invol mask : wfb mask -> forall p i, wfb p -> ws_xor mask i (ws_xor mask i p) = p.
+Proof.
+  intros Wm. induction p as [|b p IH]; intros i Wp; cbn [ws_xor]; [reflexivity|].
+  apply wfb_cons in Wp. destruct Wp as [Hb Wp]. unfold is_byte in Hb.
+  replace (b <? 0) with false by lia.
+  set (m := nth (Z.to_nat (i mod 4)) mask 0).
+  assert (Hm : 0 <= m).
+  { subst m. destruct (nth_in_or_default (Z.to_nat (i mod 4)) mask 0) as [Hin|Hd]; [|rewrite Hd; lia].
+    unfold wfb in Wm. rewrite Forall_forall in Wm. specialize (Wm _ Hin). unfold is_byte in Wm. lia. }
+  assert (Hx : 0 <= Z.lxor b m) by (apply Z.lxor_nonneg; lia).
+  replace (Z.lxor b m <? 0) with false by lia.
+  rewrite Z.lxor_assoc, Z.lxor_nilpotent, Z.lxor_0_r. rewrite IH by assumption. reflexivity.
+Qed.
+
+Lemma ws_frame_run c lf mask p rest :
+  wsc_server c = true -> len mask = 4 -> wfb mask -> wfb p ->
+  1 <= len p <= wsc_rxbuf c -> ws_lform_ok lf (len p) ->
+  ws_run c (MHdr []) (ws_mk_frame lf mask p ++ rest) =
+  let '(m, e) := ws_run c (MHdr []) rest in (m, WMsg p :: e).
+Proof.
+  intros Hsrv Hlm Wm Wp Hn Hok. set (n := len p) in *.
+  set (lb := ws_lenbytes lf n).
+  set (hd := 130 :: lb ++ mask).
+  assert (Hframe : ws_mk_frame lf mask p ++ rest = hd ++ (ws_xor mask 0 p ++ rest)).
+  { unfold ws_mk_frame, hd. fold n. fold lb. cbn [app]. rewrite <- !app_assoc. reflexivity. }
+  assert (Hlb : exists b1 tl, lb = b1 :: tl /\ 128 <= b1 /\
+              fh_ext (ws_fh b1) = len tl /\ fh_masked (ws_fh b1) = true /\
+              ws_fsize (130 :: lb ++ mask) = n).
+  { subst lb. destruct lf; cbn [ws_lenbytes ws_lform_ok] in *.
+    - exists (128 + n), []. repeat split; try lia.
+      + unfold ws_fh. cbn [fh_ext]. replace ((128 + n) mod 128 =? 127) with false by lia.
+        replace ((128 + n) mod 128 =? 126) with false by lia. reflexivity.
+      + unfold ws_fh. cbn [fh_masked]. lia.
+      + unfold ws_fsize. cbn [app nth]. replace ((128 + n) mod 128 =? 127) with false by lia.
+        replace ((128 + n) mod 128 =? 126) with false by lia. lia.
+    - exists 254, [n / 256; n mod 256].
+      split; [reflexivity|]. split; [lia|]. split; [reflexivity|]. split; [reflexivity|].
+      unfold ws_fsize. cbn [app nth]. change (254 mod 128 =? 127) with false. change (254 mod 128 =? 126) with true.
+      cbv iota. unfold take, drop, ws_be. cbn [Z.to_nat]. change (Pos.to_nat 2) with 2%nat.
+      cbn [skipn firstn fold_left]. lia.
+    - exists 255, [0; 0; 0; 0; (n / 16777216) mod 256; (n / 65536) mod 256; (n / 256) mod 256; n mod 256].
+      split; [reflexivity|]. split; [lia|]. split; [reflexivity|]. split; [reflexivity|].
+      unfold ws_fsize. cbn [app nth]. change (255 mod 128 =? 127) with true. cbv iota.
+      unfold take, drop, ws_be. cbn [Z.to_nat]. change (Pos.to_nat 2) with 2%nat. change (Pos.to_nat 8) with 8%nat.
+      cbn [skipn firstn fold_left]. lia. }
+  destruct Hlb as (b1 & tl & Elb & Hb1 & Hext & Hmask & Hsize).
+  pose proof (ws_fh_hl_range b1) as (_ & _ & Hhl). rewrite Hmask, Hext in Hhl.
+  pose proof (len_nonneg tl) as Htl.
+  assert (Hnth1 : nth 1 hd 0 = b1) by (unfold hd; rewrite Elb; reflexivity).
+  assert (Hlhd : len hd = fh_hl (ws_fh b1)).
+  { unfold hd. rewrite Elb. rewrite len_cons. cbn [app]. rewrite len_cons, len_app. lia. }
+  rewrite Hframe. rewrite ws_run_hdr_done.
+  2:{ rewrite Hlhd. lia. }
+  2:{ unfold ws_hdr_ok. rewrite Hnth1, Hmask. cbn [negb]. rewrite andb_false_r. reflexivity. }
+  2:{ rewrite Hnth1. exact Hlhd. }
+  assert (Hdone : ws_hdr_done c hd = (MBody mask n [], [])).
+  { unfold ws_hdr_done. rewrite Hnth1, Hmask. change (nth 0 hd 0) with 130.
+    change (130 mod 16) with 2. cbn [Z.eqb Pos.eqb negb andb].
+    change (ws_fsize hd) with (ws_fsize (130 :: lb ++ mask)). rewrite Hsize.
+    replace (wsc_rxbuf c <? n) with false by lia. replace (n =? 0) with false by lia.
+    assert (Hmk : take 4 (drop (2 + fh_ext (ws_fh b1)) hd) = mask).
+    { replace (2 + fh_ext (ws_fh b1)) with (len (130 :: lb)) by (rewrite Elb, !len_cons; lia).
+      unfold hd. change (130 :: lb ++ mask) with ((130 :: lb) ++ mask). rewrite drop_app_exact.
+      apply tcp_take_all. lia. }
+    rewrite Hmk. reflexivity. }
+  rewrite Hdone. cbn [app].
+  rewrite (ws_run_body_full c mask n rest (ws_xor mask 0 p) []).
+  2:{ rewrite len_nil. lia. }
+  2:{ rewrite len_nil, ws_xor_len. reflexivity. }
+  cbn [app]. unfold ws_unmask. rewrite Hsrv. rewrite ws_xor_invol by assumption.
+  destruct (ws_run c (MHdr []) rest) as [m e]. reflexivity.
+Qed.
+
+Fixpoint ws_frames_of (l : list (ws_lform * bytes * bytes)) : bytes :=
+  match l with
+  | [] => []
+  | (lf, mask, p) :: tl => ws_mk_frame lf mask p ++ ws_frames_of tl
+  end.
+
+Definition ws_frame_ok (c : ws_cfg) (x : ws_lform * bytes * bytes) : Prop :=
+  let '(lf, mask, p) := x in
+  len mask = 4 /\ wfb mask /\ wfb p /\ 1 <= len p <= wsc_rxbuf c /\ ws_lform_ok lf (len p).
+
+(* C05_ws_frames (automaton): a sequence of frames is delivered as exactly their payloads *)
+Theorem ws_frames_run c : wsc_server c = true -> forall l,
+  Forall (ws_frame_ok c) l ->
+  ws_run c (MHdr []) (ws_frames_of l) = (MHdr [], map (fun x => WMsg (snd x)) l).
+Proof.
+  intros Hsrv. induction l as [|[[lf mask] p] tl IH]; intros H; [reflexivity|].
+  inversion H as [|? ? Hx Htl]; subst. destruct Hx as (H1 & H2 & H3 & H4 & H5).
+  cbn [ws_frames_of map snd]. rewrite ws_frame_run by assumption. rewrite IH by assumption. reflexivity.
+Qed.
+
+(* C05_ws_frames: an accepted handshake followed by frames of messages, arriving in any pieces, is
+   delivered as "connected" and exactly the payloads, in order *)
+Theorem ws_stream_delivered c hs l arr :
+  wsc_fix c = ws_fixed -> ws_drain_buf <= wsc_rxbuf c -> wsc_server c = true ->
+  ws_run c (MHs ws_flags0 []) hs = (MHdr [], [WConnected]) ->
+  Forall (ws_frame_ok c) l -> Forall wfb arr -> concat arr = hs ++ ws_frames_of l ->
+  snd (ws_arrivals c ws_init arr) = WConnected :: map (fun x => WMsg (snd x)) l /\
+  ws_mode_of (fst (ws_arrivals c ws_init arr)) = MHdr [].
+Proof.
+  intros Hfix Hdb Hsrv Hhs Hl W Hc.
+  assert (Hrun : ws_run c (ws_mode_of ws_init) (concat arr) =
+                 (MHdr [], WConnected :: map (fun x => WMsg (snd x)) l)).
+  { rewrite Hc. unfold ws_mode_of, ws_init. cbn [w_closed w_up w_flags w_http negb].
+    rewrite ws_run_app, Hhs. rewrite ws_frames_run by assumption. reflexivity. }
+  assert (Hz : ~ In WZero (snd (ws_run c (ws_mode_of ws_init) (concat arr)))).
+  { rewrite Hrun. cbn [snd In]. intros [E|Hin]; [discriminate|].
+    apply in_map_iff in Hin. destruct Hin as (x & E & _). discriminate. }
+  destruct (ws_arrivals c ws_init arr) as [s1 e1] eqn:H1.
+  destruct (ws_arrivals_spec c Hfix Hdb arr ws_init s1 e1 (ws_init_qinv c) W Hz H1) as (R & _).
+  rewrite Hrun in R. inversion R as [[Hm He]]. cbn [fst snd]. split; congruence.
+Qed.
+
+(* ------------------------------------------------------------------ what reaches coap_dispatch *)
+From LibcoapV Require Import Wire.OptCodec Wire.Pdu Wire.PduProofs.
+
+(* coap_read_session hands a returned frame to coap_pdu_parse when it has more than 2 bytes *)
+Inductive ws_obs := WDeliver (m : msg) | WIgnored (p : bytes) | WOther (e : ws_ev).
+Definition ws_observe_ev (e : ws_ev) : ws_obs :=
+  match e with
+  | WMsg p => if 2 <? len p then match parse WS p with Some m => WDeliver m | None => WIgnored p end
+              else WIgnored p
+  | _ => WOther e
+  end.
+Definition ws_observe (evs : list ws_ev) : list ws_obs := map ws_observe_ev evs.
+
+Theorem ws_observe_messages ms :
+  Forall (fun m => msg_wf m /\ 2 < len (serialize WS m)) ms ->
+  ws_observe (map (fun m => WMsg (serialize WS m)) ms) = map (fun m => WDeliver (norm_fields WS m)) ms.
+Proof.
+  induction 1 as [|m tl [W Hl] _ IH]; [reflexivity|].
+  cbn [map ws_observe ws_observe_ev]. replace (2 <? len (serialize WS m)) with true by lia.
+  rewrite parse_serialize by assumption. f_equal. exact IH.
+Qed.
